@@ -186,6 +186,9 @@ class SpecMixin:
             return self.wrap(self.mk_joinr(self.z(sep), xs.arr, self.zi(a), self.zi(b)), "str")
         if name in ("strip", "lstrip", "rstrip"):
             return self.wrap(self.mk_strip(name, self.z(self.eval(n.args[0]))), "str")
+        if name in ("endswith", "startswith"):
+            s_, a_ = (self.eval(x) for x in n.args)
+            return self.str_method(s_, name, [a_], {}, n)
         if name == "replace":
             s_, a_, b_ = (self.eval(x) for x in n.args)
             return self.str_method(s_, "replace", [a_, b_], {}, n)
